@@ -157,7 +157,7 @@ fn templates(c: char) -> [Vec<char>; 12] {
 }
 
 pub fn run(_env: &Env, run: &Run) -> (Stats, Coverage) {
-    // (a) every scalar value in 12 templates + next to each of its bit-16..20 aliases through every operation
+    // (a) every scalar value in 12 templates + next to each of its 16 other-plane aliases through every operation
     let mut st = cpsweep(|c, st| {
         for t in templates(c) {
             let s: String = t.iter().collect();
